@@ -45,6 +45,13 @@ class Rec:
         self.is_union = is_union
 
 
+class VecL:
+    """a std::vector held as a python list of evaluated elements"""
+
+    def __init__(self, items=None):
+        self.items = list(items or [])
+
+
 class Heap:
     def __init__(self, size):
         self.size = size
@@ -776,6 +783,11 @@ class PEval:
                     r = Str(obj.b)
                     self.str_append(r, v)
                     return r
+            if isinstance(obj, VecL) and name == 'operator[]':
+                i = self.ev(ops[1], env, depth)
+                if isinstance(i, int) and 0 <= i < len(obj.items):
+                    return obj.items[i]
+                raise Fault('vector index %r outside its %d elements' % (i, len(obj.items)))
             if isinstance(obj, tuple) and obj and obj[0] == 'iter':
                 if name == 'operator*':
                     return self.wrap(obj[1].b[obj[2]], dtype(n))
@@ -820,6 +832,36 @@ class PEval:
                 obj = self.ev(objn, env, depth)
                 if isinstance(obj, Str):
                     return self.str_method(obj, name, args, env, depth, n)
+                if isinstance(obj, VecL):
+                    vals = [self.ev(a, env, depth) for a in args if a.get('kind') != 'CXXDefaultArgExpr']
+                    if name in ('push_back', 'emplace_back') and len(vals) == 1:
+                        v_ = vals[0]
+                        obj.items.append(Str(v_.b) if isinstance(v_, Str) else Str(v_.cstr()) if isinstance(v_, Lit) and 'basic_string' in (dtype(n) or '') + (dtype(objn) or '') else v_)
+                        return None
+                    if name == 'pop_back':
+                        if not obj.items:
+                            raise Fault('pop_back on an empty vector')
+                        obj.items.pop()
+                        return None
+                    if name in ('back', 'front'):
+                        if not obj.items:
+                            raise Fault('%s() of an empty vector' % name)
+                        v_ = obj.items[-1 if name == 'back' else 0]
+                        return self.wrap(v_, dtype(n)) if isinstance(v_, int) else v_
+                    if name == 'size':
+                        return len(obj.items)
+                    if name == 'empty':
+                        return 1 if not obj.items else 0
+                    if name == 'clear':
+                        obj.items = []
+                        return None
+                    if name == 'at' and len(vals) == 1 and isinstance(vals[0], int):
+                        if 0 <= vals[0] < len(obj.items):
+                            return obj.items[vals[0]]
+                        raise Thrown(n, 'vector::at out of range')
+                    if name == 'reserve':
+                        return None
+                    raise Undecided('std::vector::%s' % name)
                 if isinstance(obj, Lam) and name == 'operator()':
                     return self.call_lambda(obj, args, env, depth)
                 if name.startswith('operator ') and isinstance(obj, (int, Lit, Str)):
@@ -1177,7 +1219,9 @@ class PEval:
                         continue
                     init = [c for c in kids(vd) if c.get('kind') and not c['kind'].endswith('Attr')]
                     t = dtype(vd) or ''
-                    if init and 'basic_string' not in t and self.record_kind(t) is not None and strip(init[-1]).get('kind') == 'CXXConstructExpr' and not [c for c in kids(strip(init[-1])) if c.get('kind')]:
+                    if init and t.replace('const ', '').startswith('std::vector<') and strip(init[-1]).get('kind') == 'CXXConstructExpr' and not [c for c in kids(strip(init[-1])) if c.get('kind')]:
+                        v = VecL()
+                    elif init and 'basic_string' not in t and self.record_kind(t) is not None and strip(init[-1]).get('kind') == 'CXXConstructExpr' and not [c for c in kids(strip(init[-1])) if c.get('kind')]:
                         v = Rec(self.record_kind(t) == 'union')
                     elif init:
                         v = self.ev(init[-1], env, depth)
@@ -1185,6 +1229,8 @@ class PEval:
                             v = self.wrap(v, t)
                         if isinstance(v, Str) and strip(init[-1]).get('kind') not in ('CXXConstructExpr', 'CXXTemporaryObjectExpr', 'CallExpr', 'CXXMemberCallExpr', 'CXXOperatorCallExpr', 'ExprWithCleanups') and not (qtype(vd) or '').rstrip().endswith('&'):
                             v = Str(v.b)
+                    elif t.replace('const ', '').startswith('std::vector<'):
+                        v = VecL()
                     elif 'basic_string' in t:
                         v = Str()
                     elif self.record_kind(t) is not None:
